@@ -218,7 +218,9 @@ def check(case):
             a = ref.eval_tree(tree, env, pt["t"], pt["vol"])
             b = _python_eval(text, envp, pt["t"], pt["vol"])
             if isinstance(b, complex) or not (abs(a - b) <= 1e-9 * max(1.0, abs(a), abs(b))):
-                if math.isfinite(a) and not isinstance(b, complex) and math.isfinite(b):
+                # (only where the value is not decided by rounding: the minimal-parentheses text associates differently)
+                if math.isfinite(a) and not isinstance(b, complex) and math.isfinite(b) and \
+                        true_value(tree, env, pt["t"], pt["vol"]) is not None:
                     raise HarnessError(f"printer disagrees with python: {text} -> {b} vs tree {a}")
         except HarnessError:
             raise
